@@ -12,7 +12,7 @@ META = {
     "bounds": {
         "quick": {"order/supports": "group,name: any strings of length 1..2; version components: any ints >= 0 (unbounded)",
                   "hash_eq": "strings over {a,b} length 1, version components 0..1 (realised by hashing)",
-                  "group": "<=3 registrations (any mix of _add_ep / register_in_group, any order, repeats allowed), 2 plugin names, major/minor 0..1 (realised); every query (name, major 0..2, minor 0..2)",
+                  "group": "<=3 registrations (any mix of _add_ep / register_in_group, any order, repeats allowed), 2 plugin names, major/minor 0..1 (realised), and for one name (0, minor 0..1, patch 0..1); every query (name, major 0..2, minor 0..2)",
                   "codec": "3 names x version components 0..999 (symbolic, not enumerated) via CrossHair; unbounded lengths via the z3 regex lemmas",
                   "semver": "components 0..20 (symbolic int<->str)"},
         "thorough": {"group": "major/minor 0..2", "codec": "version components 0..99999"},
@@ -57,6 +57,12 @@ def plan(tier, seed):
             parts.append(Part(H, "group", {"pat": pat, "how": "".join(how), "vb": vb}, ct * 2, 30,
                               "versions() lists every registered version once, ascending; resolve = newest "
                               "supporting or None; keys/in agree (re-registration included)", weight=2))
+    # versions that differ in the PATCH component only (same major.minor), registered in any order
+    for pat in ("00", "000"):
+        for how in itertools.product("er", repeat=len(pat)):
+            parts.append(Part(H, "group", {"pat": pat, "how": "".join(how), "vb": vb, "vary": "mp"}, ct * 2, 30,
+                              "as above with versions (0, minor, patch): releases differing only in the patch component "
+                              "are listed ascending and the newest is resolved, whatever the registration order", weight=2))
     return parts
 
 
